@@ -412,6 +412,30 @@ def purity(ctx, obs, rule='PURE'):
     obs.check(not shared, 'STATE', qt, 'the measurements tensor is a new array (the in-place centring of _check_demean relies on it)',
               f'get_measurements_tensor may return {shared} (a view of the dataset\'s own data): the in-place 3-D centring in _check_demean '
               f'then demeans the caller\'s dataset', '', where(prog, ft, ft.node))
+    # grouping the observations of each condition: a reshape(<groups>, -1, ..) of the rows sorted by group cuts the rows into EQUAL
+    # blocks whatever the group sizes are - for an unbalanced design whose observation count happens to be a multiple of the number
+    # of conditions rows of different conditions land in one block, silently (np.stack of per-group selections raises instead)
+    con = 'observations are grouped by condition, not cut into equal blocks'
+    reshapes = [c for c in ast.walk(ft.node) if isinstance(c, ast.Call) and _leaf(c.func) == 'reshape'
+                and any(isinstance(a, ast.UnaryOp) and isinstance(a.op, ast.USub) and isinstance(a.operand, ast.Constant) and a.operand.value == 1
+                        for a in (c.args[0].elts if len(c.args) == 1 and isinstance(c.args[0], (ast.Tuple, ast.List)) else c.args))]
+    sorted_rows = [c for c in reshapes if any(isinstance(x, ast.Call) and _leaf(x.func) == 'argsort' for x in ast.walk(c))
+                   or any(isinstance(x, ast.Name) and any(isinstance(d_, ast.Assign) and isinstance(d_.targets[0], ast.Name) and d_.targets[0].id == x.id
+                                                          and any(isinstance(y, ast.Call) and _leaf(y.func) == 'argsort' for y in ast.walk(d_.value))
+                                                          for d_ in ast.walk(ft.node)) for x in ast.walk(c))]
+    if sorted_rows:
+        balance_guard = any(isinstance(g, (ast.If, ast.Assert)) and any(isinstance(x, ast.Call) and _leaf(x.func) in ('bincount', 'unique', 'Counter')
+                                                                         or (isinstance(x, ast.Name) and 'count' in x.id.lower())
+                                                                         for x in ast.walk(g.test))
+                            and (isinstance(g, ast.Assert) or any(isinstance(x, ast.Raise) for x in ast.walk(g))) for g in ast.walk(ft.node))
+        if balance_guard:
+            obs.unk('STATE', qt, con, 'rows sorted by group are reshaped into blocks behind a test of the group sizes', where(prog, ft, sorted_rows[0]))
+        else:
+            obs.bad('STATE', qt, con, f'`{norm(sorted_rows[0])[:80]}` cuts the rows (sorted by condition) into equal blocks without checking '
+                    f'that every condition has the same number of observations: an unbalanced design with a divisible observation count is '
+                    f'accepted and rows of different conditions are pooled in one block', where(prog, ft, sorted_rows[0]))
+    else:
+        obs.ok('STATE', qt, con, 'no equal-block reshape of sorted rows', where(prog, ft, ft.node))
     # the 2-D arm of _check_demean centres a new array
     q = N + '_check_demean'
     f = prog.func(q)
